@@ -250,7 +250,9 @@ Definition outputs (c : config) (h : list op) : list out := snd (run c a_init h)
 Record sconfig := mkSConfig {
   ant_cfg : config;
   lead_in : Q;          (* lead_in_time *)
-  fe_scale : Q          (* front_end(signal) = signal * fe_scale (linear front end; 1 = identity) *)
+  fe_scale : Q;         (* gain of the front end *)
+  fe_taps : list Q      (* FIR stage of the front end acting on the SAMPLE SEQUENCE (a front end with
+                           memory: [0;..;0;1] is a delay line, [a;b] a 2-tap filter); [] = no FIR stage *)
 }.
 
 Record sstate := mkS {
@@ -262,8 +264,20 @@ Record sstate := mkS {
 
 Definition s_init : sstate := mkS a_init [] [] [].
 
+(* y[i] = taps[0]*x[i] + taps[1]*x[i-1] + ... ; samples before the start of the array are 0 *)
+Fixpoint fir_at (taps : list Q) (xs : list Q) (i : nat) : Q :=
+  match taps with
+  | [] => 0
+  | c :: taps' => c * nth i xs 0 + match i with O => 0 | S i' => fir_at taps' xs i' end
+  end.
+
+Definition fir (taps : list Q) (xs : list Q) : list Q :=
+  map (fir_at taps xs) (seq 0 (length xs)).
+
+(* front_end(signal): gain, then (if any) the FIR stage on the samples; the time grid is kept *)
 Definition front_end (sc : sconfig) (s : signal) : signal :=
-  mkSig (s_times s) (map (fun v => v * fe_scale sc) (s_values s)).
+  let scaled := map (fun v => v * fe_scale sc) (s_values s) in
+  mkSig (s_times s) (match fe_taps sc with [] => scaled | taps => fir taps scaled end).
 
 (* AntennaSystem._calculate_lead_in_times *)
 Definition lead_in_n (sc : sconfig) (times : list Q) : Z :=
